@@ -106,6 +106,11 @@ func vhRTUFrame(sel int, p int, q int) []byte {
 	extra := vndBytes("extra", q, 0)
 	u8 := vndU8("u8")
 	blen := uint8(p) // byte-length fields are what the parsers/servers put there: the payload length
+	if sel == 10 || sel == 11 || sel == 12 || sel == 13 || sel == 19 {
+		// ... or, for a response built by a handler, a byte count that announces q more bytes than the payload holds
+		// (the encoder then pads with zeros): the trailer must still be the CRC of everything before it
+		blen = uint8(p + q)
+	}
 	switch sel {
 	case 0:
 		return ReadCoilsRequestRTU{ReadCoilsRequest{UnitID: unit, StartAddress: a1, Quantity: a2}}.Bytes()
